@@ -16,7 +16,7 @@ ID = "C19"
 LEVEL = "fault_enumeration"
 TECHNIQUE = "exhaustive enumeration of single crash points (and Hypothesis-sampled double crashes / configurations) of the real script driven against an in-process simulator of the nextflow workflows; differential against the never-interrupted run"
 RULE = (
-    "configuration = (mode, batch size 1..4, 2..7 plates, n_chains/n_chunks 1..2, publication order salt, position of the prospective metadata file); the "
+    "configuration = (mode, batch size 1..4, 2..7 plates, n_chains/n_chunks 1..2, publication order salt, position of the prospective metadata file, absolute or relative --outdir with the script started in the project directory); the "
     "uninterrupted run defines the reference log and the number N of injection points (before/after every directory creation, every removed entry, every published "
     "file); an interruption is a kill (nothing of the script runs afterwards), a KeyboardInterrupt (the script's own handlers run; the script is entered through its main()) or a failing pipeline command; exhaustive part: every single interruption point of the listed configurations (by kill and by KeyboardInterrupt; by a failing command for three configurations in the quick tier, all in the thorough tier); generated part: drawn configurations with 1..2 crash points. Non-trivial = "
     "a crash strictly inside a step (job directory exists, last file not yet published), or in the first step of a new iteration, or a second crash during recovery. "
@@ -46,6 +46,7 @@ CONFIGS_QUICK = [
     {"mode": "retrospective", "batch": 3, "plates": 6, "n_chains": 1, "n_chunks": 1, "order_salt": "c", "metadata_position": None},
     {"mode": "prospective", "batch": 2, "plates": 4, "n_chains": 1, "n_chunks": 1, "order_salt": "b", "metadata_position": "first", "invocations": 2},
     {"mode": "prospective", "batch": 3, "plates": 5, "n_chains": 2, "n_chunks": 1, "order_salt": "d", "metadata_position": None, "invocations": 1},
+    {"mode": "retrospective", "batch": 2, "plates": 4, "n_chains": 1, "n_chunks": 1, "order_salt": "e", "metadata_position": None, "relative_outdir": True},
 ]
 
 
@@ -122,6 +123,8 @@ def _case(draw):
     }
     if mode == "prospective":
         cfg["invocations"] = draw(st.integers(1, 3))
+    if draw(st.integers(0, 3)) == 0:
+        cfg["relative_outdir"] = True  # --outdir relative to the directory the script is started in (not the repository root)
     c1 = draw(st.integers(0, 400))
     crashes = [c1]
     if draw(st.booleans()):
@@ -149,6 +152,7 @@ def run_scenario(cfg, crashes, style="kill"):
     import sys
 
     _script()  # (fails early with a harness error if the script cannot be loaded)
+    harness_cwd = os.getcwd()
     root = tmp.fresh("c19")
     os.makedirs(os.path.join(root, "input"))
     run = osim.Run(root, cfg, crashes, style=style)
@@ -181,13 +185,15 @@ def run_scenario(cfg, crashes, style="kill"):
             run.dead = False  # a new process
             run.interrupted = False
             orch = new_process()
+            if cfg.get("relative_outdir"):
+                os.chdir(root)  # the operator starts the script in the project directory and names the output directory relative to it
             step = attach(orch, "run_next_retrospective_step" if cfg["mode"] == "retrospective" else "run_next_prospective_step")
             try:
                 entry = getattr(orch, "main", None)
                 if callable(entry):
                     # the script's own entry point (its main loop and whatever handlers it installs around it)
                     argv = sys.argv
-                    sys.argv = ["batchie.py", "--mode", cfg["mode"], "--screen", run.input_screen, "--outdir", run.outdir, "--batch-size", str(cfg["batch"])] + list(extra)
+                    sys.argv = ["batchie.py", "--mode", cfg["mode"], "--screen", run.input_screen, "--outdir", "out" if cfg.get("relative_outdir") else run.outdir, "--batch-size", str(cfg["batch"])] + list(extra)
                     try:
                         entry()
                     except SystemExit as e:
@@ -198,6 +204,7 @@ def run_scenario(cfg, crashes, style="kill"):
                             break
                     finally:
                         sys.argv = argv
+                        os.chdir(harness_cwd)  # (a script that changes its working directory changed the harness's: every process starts afresh)
                 else:
                     guard = 0
                     while True:  # the script's main() loop
@@ -251,6 +258,7 @@ def run_scenario(cfg, crashes, style="kill"):
                 break
         tree_ = osim.snapshot_tree(run.outdir) if os.path.isdir(run.outdir) else {}
     finally:
+        os.chdir(harness_cwd)
         tmp.cleanup(root)
     return {
         "problem": problem,
